@@ -178,6 +178,149 @@ FAM = Family("process", es.IMPORTS, "ok_run", es.CASE_TYPE, gen, impl, es.enc_ca
              nontrivial=lambda c, o: sum(1 for u in o["ulog"] if u[0] == "resume") >= 3, parallel=True,
              describe=lambda c: f"end={'none' if c['end'] is None else 'finite'}")
 
+# --------------------------------------------------------------------------- late hooks (oracle only)
+def gen_late(rng):
+    """A process started by an event that carries NO completion hook (or an empty hook list) when its
+    generator starts; hooks are attached to that event afterwards — by the process itself after a
+    yield, or by another entity while the process is delayed or parked on a future."""
+    delays = [rng.choice([0, 1, 1000, 250_000_000, 1_000_000_000]) for _ in range(rng.randint(1, 3))]
+    total = sum(delays)
+    attach = []
+    for _ in range(rng.randint(1, 3)):
+        who = rng.choice(["self", "other"])
+        if who == "self":
+            attach.append(["self", rng.randrange(len(delays))])            # after the i-th yield
+        else:
+            attach.append(["other", rng.choice([0, total // 2, max(total - 1, 0), total])])   # at that instant
+    return dict(delays=delays, attach=attach, initial=rng.choice(["none", "empty"]), park=rng.random() < 0.3,
+                hook_dt=rng.choice([0, 1, 500_000_000]))
+
+
+def impl_late(c):
+    from happysimulator.core.entity import Entity
+    from happysimulator.core.event import Event
+    from happysimulator.core.sim_future import SimFuture
+    from happysimulator.core.simulation import Simulation
+    from happysimulator.core.temporal import Duration, Instant
+    from hsverif.util import Timeout, time_limit
+    log = []
+    fut = [None]
+    total = sum(c["delays"])
+
+    class Sink(Entity):
+        def handle_event(self, event):
+            log.append(["hookevent", self.now.nanoseconds, event.event_type])
+            return None
+
+    sink = Sink("sink")
+
+    def mk_hook(tag):
+        def hook(t):
+            log.append(["hook", t.nanoseconds, tag])
+            return [Event(time=t + Duration(c["hook_dt"]), event_type=f"h{tag}", target=sink)]
+        return hook
+
+    class Proc(Entity):
+        def handle_event(self, event):
+            for i, d in enumerate(c["delays"]):
+                yield Duration(d).to_seconds() if d % 1000 == 0 and d >= 1000 else Duration(d)
+                for tag, a in enumerate(c["attach"]):
+                    if a[0] == "self" and a[1] == i:
+                        event.add_completion_hook(mk_hook(tag))
+            if c["park"]:
+                fut[0] = SimFuture()
+                yield fut[0]
+            log.append(["finish", self.now.nanoseconds])
+            return None
+
+    class Other(Entity):
+        def handle_event(self, event):
+            tag = event.context["tag"]
+            if tag == "resolve":
+                if fut[0] is not None:
+                    fut[0].resolve(1)
+                return None
+            e0.add_completion_hook(mk_hook(tag))
+            log.append(["attached", self.now.nanoseconds, tag])
+            return None
+
+    proc, other = Proc("proc"), Other("other")
+    e0 = Event(time=Instant(0), event_type="start", target=proc, on_complete=None if c["initial"] == "none" else [])
+    sim = Simulation(entities=[proc, other, sink], end_time=Instant(total + 5_000_000_000))
+    sim.schedule(e0)
+    for tag, a in enumerate(c["attach"]):
+        if a[0] == "other":
+            sim.schedule(Event(time=Instant(a[1]), event_type="attach", target=other, context={"tag": tag}))
+    sim.schedule(Event(time=Instant(total + 1_000_000_000), event_type="attach", target=other, context={"tag": "resolve"}))
+    try:
+        with time_limit(20):
+            sim.run()
+    except Timeout:
+        return dict(log=log, status=3)
+    return dict(log=log, status=0)
+
+
+def oracle_late(c, o):
+    if o["status"] == 3:
+        return [dict(clause="run exceeded the time limit")]
+    log = o["log"]
+    fin = [x[1] for x in log if x[0] == "finish"]
+    if len(fin) != 1:
+        return [dict(clause="the process finishes exactly once", log=log[:12])]
+    total = sum(c["delays"])
+    # hooks attached strictly before the process finished (at the same instant: other's event is created
+    # before the continuation that finishes the process, so it is delivered first) must run once, at finish
+    expected = []
+    for tag, a in enumerate(c["attach"]):
+        if a[0] == "self":
+            if len(a) == 2 and a[1] < len(c["delays"]):      # (shrunk cases may carry attachments that never happen)
+                expected.append(tag)
+        elif any(x[0] == "attached" and x[2] == tag and (x[1] < fin[0] or log.index(x) < log.index(["finish", fin[0]])) for x in log):
+            expected.append(tag)
+    ran = [x for x in log if x[0] == "hook"]
+    out = []
+    for tag in expected:
+        mine = [x for x in ran if x[2] == tag]
+        if len(mine) != 1 or mine[0][1] != fin[0]:
+            out.append(dict(clause="a completion hook attached to an event while its process is still running runs exactly once, when the process finishes",
+                            tag=tag, attach=c["attach"][tag], ran=mine, finish=fin[0], initial=c["initial"]))
+            break
+        evs = [x for x in log if x[0] == "hookevent" and x[2] == f"h{tag}"]
+        if len(evs) != 1 or evs[0][1] != fin[0] + c["hook_dt"]:
+            out.append(dict(clause="the events a completion hook returns are scheduled once, relative to the finish instant", tag=tag, delivered=evs))
+            break
+    return out
+
+
+FAM_LATE = Family("late_hooks", "", "", "", gen_late, impl_late, lambda c, o: "", oracle_late,
+                  nontrivial=lambda c, o: any(x[0] == "hook" for x in o["log"]), describe=lambda c: c["initial"])
+
+
+def run_oracle_only(ctx, fam, n):
+    """A family without a Coq model: corpus + n generated cases, oracle on each, shrinking of the first failure."""
+    from hsverif.family import load_corpus, shrink_case
+    cases = load_corpus(ctx.pid, fam.name) + [fam.gen(ctx.rng) for _ in range(n)]
+    fails, nontrivial = 0, 0
+    for c in cases:
+        try:
+            o = fam.impl(c)
+        except Exception as e:  # noqa: BLE001
+            ctx.violation("oracle", dict(family=fam.name, case=c, failure=dict(clause="implementation raised", error=f"{type(e).__name__}: {e}"[:300])))
+            fails += 1
+            continue
+        nontrivial += bool(fam.nontrivial(c, o))
+        fs = fam.oracle(c, o)
+        if fs:
+            fails += 1
+            if fails == 1:
+                d = dict(family=fam.name, case=c, obs=o, failure=fs[0])
+                small = shrink_case(fam, c, fs[0]["clause"])
+                if small != c:
+                    d["minimized_case"] = small
+                ctx.violation("oracle", d)
+    return dict(family=fam.name, cases=len(cases), nontrivial=nontrivial, oracle_failures=fails, model="none (oracle only)")
+
+
 TRUSTED = [
     "Coq 8.16.1 kernel, vm_compute for case evaluation; no native_compute; no axioms",
     "Python generator protocol (send/StopIteration/yield from): scripts are inlined step lists in the model",
@@ -190,12 +333,20 @@ def run(ctx):
     ctx.prove(FILES, allowed_axioms=(), trusted_base=TRUSTED)
     stats = [run_family(ctx, FAM, ctx.n(500, 10000))]
     merge_stats(ctx, stats, "random scripts with at least one generator handler: three yield forms, yield from, float delays, futures resolved before/at/after the park, nested any_of/all_of, double resolve, double park; non-trivial = >=3 process steps; distinct by JSON")
+    ctx.coverage["oracle_only_families"] = [run_oracle_only(ctx, FAM_LATE, ctx.n(150, 1500))]
+    ctx.assumptions.append("completion hooks attached AFTER the process has started (late_hooks family) are checked by the implementation-side oracle only; the Coq interpreter attaches hooks at event creation")
     ctx.assumptions.append("any_of/all_of whole-combinator statements are proved as one-step callback semantics only (c02_*_partial); nesting is covered by the correspondence and the oracle")
     ctx.finish_obligations()
 
 
 def replay(data):
     c = data["detail"]["case"]
+    if data["detail"].get("family") == "late_hooks":
+        o = impl_late(c)
+        f = oracle_late(c, o)
+        print("log:", o["log"])
+        print("oracle failures:", f)
+        return 1 if f else 0
     o = impl(c)
     f = oracle(c, o)
     print("ulog:", o["ulog"])
